@@ -104,4 +104,24 @@ def importEcPrivate (curves : List (String × Nat)) (d : Dict) : Except Err EcPr
   let dd ← readInt d "d"
   pure { pub, d := dd }
 
+/-! ## Octet-string members: `oct` (`k`) and OKP (`x`, `d`) -/
+
+/-- `OctBinding.convert_raw_key_to_dict`: `k` is the unpadded base64url of the key octets. -/
+def exportOct (raw : Bytes) : Dict := [("k", .str (asciiStr (b64e raw)))]
+
+/-- `OctBinding.import_from_dict` -/
+def importOct (d : Dict) : Except Err Bytes :=
+  match d.get? "k" with
+  | some (.str s) => do
+    let b ← toBytesAscii s
+    b64d b
+  | some _ => .error .typeError
+  | none => .error .keyError
+
+/-- `OKPBinding.export_public_key`: `x` is the unpadded base64url of the raw public key octets. -/
+def exportOkpPublic (crv : String) (x : Bytes) : Dict := [("crv", .str crv), ("x", .str (asciiStr (b64e x)))]
+
+/-- `OKPBinding.export_private_key`: the public members, then `d`. -/
+def exportOkpPrivate (crv : String) (x d : Bytes) : Dict := exportOkpPublic crv x ++ [("d", .str (asciiStr (b64e d)))]
+
 end Jose
